@@ -11,6 +11,7 @@ from __future__ import annotations
 
 from . import common as C
 from . import replay
+from . import specvssuite
 
 
 def run(tier: str) -> int:
@@ -18,6 +19,7 @@ def run(tier: str) -> int:
     rep.distinct = None
     thorough = tier == "thorough"
     modes = ("interp", "gen")
+    specvssuite.run(rep, max_len=6000 if thorough else 700)  # the oracle itself must accept what the repository's suite blesses
     if not thorough:
         fams = [
             {"Family": "trivia2", "MaxLen": 4, "Starts": "zero", "Sample": 350, "workers": 4},
